@@ -374,6 +374,60 @@ def _(c):
     c.ensures("counter-stays-int32", "implies(self._txn_manager is not None, 0 <= seq_of(self._txn_manager._sequence_numbers, tp) <= 2**31 - 1)")
     c.ensures("manager-identity", "self._txn_manager == old(self._txn_manager) and self._cluster == old(self._cluster)"
               " and implies(self._txn_manager is not None, self._txn_manager._pid_and_epoch == old(self._txn_manager._pid_and_epoch))")
+    c.replay_fn = lambda model, ob=None: {"script": _POP_SCRIPT}
+
+
+# replay: a real accumulator of an idempotent producer (with and without a transactional id): every first drain of a batch
+# must stamp it with the producer id, epoch and the partition's next sequence number and advance the counter by the
+# record count; a retried batch keeps its stamp
+_POP_SCRIPT = '''
+import asyncio, logging
+logging.disable(logging.CRITICAL)
+from aiokafka.producer.message_accumulator import MessageAccumulator
+from aiokafka.producer.transaction_manager import TransactionManager
+from aiokafka.record.default_records import DefaultRecordBatch
+from aiokafka.structs import TopicPartition
+
+class Cluster:
+    def leader_for_partition(self, tp):
+        return 1
+
+async def scenario(transactional_id):
+    tp = TopicPartition("t", 0)
+    tm = TransactionManager(transactional_id, 1000)
+    tm.set_pid_and_epoch(77, 3)
+    if transactional_id:
+        tm.begin_transaction()
+    acc = MessageAccumulator(Cluster(), 1 << 16, 0, 1000, txn_manager=tm)
+    bad = []
+    expect = 0
+    for round_, count in enumerate((2, 1, 3)):
+        for i in range(count):
+            await acc.add_message(tp, None, b"v%d" % i, 1)
+        nodes, _ = acc.drain_by_nodes(ignore_nodes=[])
+        batch = nodes[1][tp]
+        hdr = DefaultRecordBatch(bytes(batch.get_data_buffer()))
+        if (hdr.producer_id, hdr.producer_epoch, hdr.base_sequence) != (77, 3, expect):
+            bad.append("batch %d (records %d) left with pid/epoch/base sequence %r, expected (77, 3, %d)" % (
+                round_, count, (hdr.producer_id, hdr.producer_epoch, hdr.base_sequence), expect))
+        expect += count
+        if tm.sequence_number(tp) != expect:
+            bad.append("after batch %d the sequence counter is %d, expected %d" % (round_, tm.sequence_number(tp), expect))
+        if round_ == 1:
+            acc.reenqueue(batch)                    # retriable failure: the retry must carry the same stamp
+            nodes, _ = acc.drain_by_nodes(ignore_nodes=[])
+            again = nodes[1][tp]
+            h2 = DefaultRecordBatch(bytes(again.get_data_buffer()))
+            if again is not batch or h2.base_sequence != hdr.base_sequence or tm.sequence_number(tp) != expect:
+                bad.append("retry of batch 1 changed its stamp (%r -> %r) or the counter (%d)" % (hdr.base_sequence, h2.base_sequence, tm.sequence_number(tp)))
+        batch.done_noack()
+    return ["%s producer: %s" % ("transactional" if transactional_id else "idempotent", b) for b in bad]
+
+async def main():
+    return await scenario(None) + await scenario("tid")
+bad = asyncio.run(main())
+VIOLATED = bool(bad); DETAIL = "; ".join(bad[:3])
+'''
 
 
 @contract(MOD + ":MessageAccumulator.reenqueue", ["C01", "C02"])
@@ -479,6 +533,16 @@ QUEUED_OK = ("forall(TP, lambda q: forall(lambda j: implies(q in self._batches a
 SEQ_OK = ("implies(self._txn_manager is not None, forall(TP, lambda q:"
           " 0 <= seq_of(self._txn_manager._sequence_numbers, q) <= 2**31 - 1))")
 NODES = Dict(INT, Dict(TP, BATCH), default="dict")
+WAITS_FOR_LEADER = ("(q in self._batches and q not in muted_partitions"
+                    " and (leader_of(self._cluster, q) is None or leader_of(self._cluster, q) == -1))")
+
+
+@specfn("leader_of")
+def leader_of(ex, st, cluster, tp):
+    import z3
+    oty = Opt(INT)
+    f = z3.Function("leader_of", cluster.t.sort(), tp.t.sort(), oty.sort())
+    return V(oty, f(cluster.t, tp.t))
 
 
 @contract(MOD + ":MessageAccumulator.drain_by_nodes", ["C01", "C02", "C07"])
@@ -495,7 +559,9 @@ def _(c):
                "MessageBatch._retry_count", "BatchBuilder.g_pid", "BatchBuilder.g_epoch", "BatchBuilder.g_seq", "BatchBuilder.g_stamps",
                "TransactionManager._sequence_numbers", "Future.state", "Future.nres", "Future.exc", "Future.res",
                "TimerHandle.cancelled")
-    c.call("self._cluster.leader_for_partition", returns=Opt(INT), note="cluster metadata lookup: some leader id, -1 or None")
+    # the metadata does not change while this synchronous function runs: the leader is a function of the partition
+    c.call("self._cluster.leader_for_partition", returns="leader_of(self._cluster, a0)",
+           note="cluster metadata lookup: some leader id, -1 or None; the same answer for the same partition within one call")
     c.call("self._wakeup_handle.cancel", modifies=["TimerHandle.cancelled"], note="TimerHandle.cancel() cancels that timer")
     c.call("self._loop.call_later", returns=Ref("TimerHandle"), post=["fresh(result)"], note="loop.call_later returns a new timer handle")
     # a batch that fail_all() failed while still queued trips set_producer_state's assertion when drained
@@ -516,7 +582,13 @@ def _(c):
         ("acc-inv-own", ACC_INV[1][1]),
         ("seq-ok", SEQ_OK),
         ("txn-manager-fixed", "self._txn_manager == old(self._txn_manager) and self._cluster == old(self._cluster)"),
+        ("visited-leaderless-queues-are-reported", "forall(TP, lambda q: implies(q in $done and " + WAITS_FOR_LEADER + ", unknown_leaders_exist))"),
     ])
+    # C02 "resolved within bounded time after faults cease": the sender sleeps until the accumulator's waiter fires unless it
+    # is told that some partition has no leader (then it polls the metadata); a queue left waiting for a leader that is not
+    # reported is never looked at again, even after the leader is back
+    c.ensures("every-queue-left-waiting-for-a-leader-is-reported",
+              "forall(TP, lambda q: implies(" + WAITS_FOR_LEADER + ", result[1]))")
     c.ensures("muted-partitions-untouched", "forall(TP, lambda q: implies(q in muted_partitions,"
               " (q in self._batches) == (q in old(self._batches)) and self._batches[q] == old(self._batches)[q]))")
     c.ensures("fresh-waiter", "not self._waiter_future.done()")
@@ -550,10 +622,39 @@ async def main():
     failed = fut.done() and fut.exception() is not None
     return failed, tm.sequence_number(tp), (repr(fut.exception()) if failed else None)
 failed, seq, exc = asyncio.run(main())
-VIOLATED = failed
+
+# second scenario (non-idempotent producer): a retried, expired batch in front of a younger one, the partition leaderless:
+# the expired one is failed, the younger one stays queued and waits for a leader - that has to be reported, it is the only
+# thing that makes the sender look at the metadata again
+async def second():
+    class NoLeader:
+        def leader_for_partition(self, tp): return -1
+    acc = MessageAccumulator(NoLeader(), 1 << 16, 0, 0.05)
+    tp = TopicPartition("t", 0)
+    f1 = await acc.add_message(tp, b"k", b"old", 1)
+    old_batch = acc._batches[tp][0]
+    old_batch._builder.close() if hasattr(old_batch._builder, "close") else None
+    await asyncio.sleep(0.08)                                  # the first batch is past its ttl
+    acc._batches[tp].append(type(old_batch)(tp, acc.create_builder(), 0.05, 0))   # a younger batch behind it
+    young = acc._batches[tp][1]
+    f2 = young.append(None, b"young", None)
+    nodes, unknown = acc.drain_by_nodes(ignore_nodes=set())
+    left = tp in acc._batches and len(acc._batches[tp]) > 0
+    for b in list(acc._batches.get(tp, [])):
+        b.failure(exception=RuntimeError("end of replay"))
+    for f in (f1, f2, old_batch.future, young.future):
+        if f is not None and f.done() and not f.cancelled():
+            f.exception()
+    return left, unknown, f1.done()
+left, unknown, first_failed = asyncio.run(second())
+unreported = left and not unknown
+VIOLATED = failed or unreported
 DETAIL = ("idempotent producer: drain_by_nodes failed an accepted record with %s because its partition had no leader "
           "for longer than the batch ttl (a retriable condition), after consuming sequence numbers (counter now %d)" % (exc, seq)
-          if failed else "the batch stayed queued")
+          if failed else
+          ("a batch stays queued for a partition without a leader (the expired batch in front of it was failed: %s) but "
+           "drain_by_nodes reports no unknown leader: the sender never refreshes the metadata for it" % first_failed
+           if unreported else "the batch stayed queued; the leaderless queue was reported"))
 '''
 from pyvc.contract import REGISTRY as _R
 _R[MOD + ":MessageAccumulator.drain_by_nodes"].replay_fn = lambda model, ob=None: {"script": _DRAIN_SCRIPT}
